@@ -15,7 +15,8 @@ Definition C05_full_statement : Prop := forall (e : endian) (pos : N) (v : gval)
 
 (* It holds for every value none of whose nodes is in a known class (Known_C05 = known_c05, C05/Classes.v:
    a type mentioning `b`; a fixed-size tuple / dict entry whose members do not fill a multiple of its alignment;
-   a container with framing offsets but no data bytes; a dict entry with a variable-size key of 255, 65534, 65535, ... bytes). *)
+   a container with framing offsets but no data bytes).  The former fourth class (dict entries with a variable-size key
+   whose data fill 255, 65534/65535, ... bytes) is gone since commit c613b0b9: see C05_dict_key_width_repaired. *)
 Theorem C05_partial : forall (e : endian) (pos : N) (v : gval),
   gwf v = true -> gwithin_limits v = true -> gplain v = true -> gsmall e v = true ->
   known_c05 e v = false ->
@@ -73,11 +74,13 @@ Theorem C05_empty_offsets_refuted : exists v : gval,
 Proof. exists w_empty. exact empty_witness. Qed.
 Print Assumptions C05_empty_offsets_refuted.
 
-Theorem C05_dict_key_width_refuted : exists v : gval,
-  gwf v = true /\ gwithin_limits v = true /\ gplain v = true /\ gsmall LE v = true /\ in_class (node_dict_key LE) v = true /\
-  gser_top LE 0 (gsig v) (sval_of v) <> Ok (gv_marshal LE 0 v, []).
-Proof. exists w_dictkey. exact dictkey_witness. Qed.
-Print Assumptions C05_dict_key_width_refuted.
+(* formerly C05_dict_key_width_refuted: {"k": 252 letters} : a{ss} has 255 bytes of entry data, the key's framing offset
+   needs 2 bytes.  Since c613b0b9 the model (and the code) writes the format's bytes, and the value is in no class. *)
+Example C05_dict_key_width_repaired :
+  gwf w_dictkey = true /\ gwithin_limits w_dictkey = true /\ gplain w_dictkey = true /\ gsmall LE w_dictkey = true /\
+  known_c05 LE w_dictkey = false /\
+  gser_top LE 0 (gsig w_dictkey) (sval_of w_dictkey) = Ok (gv_marshal LE 0 w_dictkey, []).
+Proof. exact dictkey_repaired. Qed.
 
 Theorem C05_full_refuted : ~ C05_full_statement.
 Proof.
@@ -103,58 +106,62 @@ Proof.
 Qed.
 Print Assumptions offset_width_total.
 
-(* ---- C02, GVariant half: encode-then-decode is not the identity in two of the classes ---- *)
+(* ---- C02, GVariant half: encode-then-decode is not the identity in one of the classes ---- *)
 Theorem C02_gv_empty_offsets_refuted : exists v : gval,
   gwf v = true /\ gwithin_limits v = true /\ ~ exists n, rt_value LE 0 v = Ok (v, n, n).
 Proof. exists w_empty. exact c02_empty_refuted. Qed.
 Print Assumptions C02_gv_empty_offsets_refuted.
-Theorem C02_gv_dict_key_width_refuted : exists v : gval,
-  gwf v = true /\ gwithin_limits v = true /\ ~ exists n, rt_value LE 0 v = Ok (v, n, n).
-Proof. exists w_dictkey. exact c02_dictkey_refuted. Qed.
-Print Assumptions C02_gv_dict_key_width_refuted.
+(* formerly C02_gv_dict_key_width_refuted: the same dict now comes back (259 bytes written, 259 consumed) *)
+Example C02_gv_dict_key_width_repaired : rt_value LE 0 w_dictkey = Ok (w_dictkey, 259, 259).
+Proof. vm_compute. reflexivity. Qed.
 
-(* ---- C04, GVariant half: a reachable panic of the decoder on hostile bytes ---- *)
-Theorem C04_gv_struct_offset_underflow_refuted : exists (g : sig) (b : bytes),
-  gde_struct_top LE 0 g b [] = Panic PArith.
-Proof. exists w_panic_sig, w_panic_bytes. exact c04_struct_offset_panics. Qed.
-Print Assumptions C04_gv_struct_offset_underflow_refuted.
-Theorem C04_gv_variant_offset_underflow_refuted : exists b : bytes, gde_value_top LE 0 b [] = Panic PArith.
-Proof. exists w_panic_variant. exact c04_variant_offset_panics. Qed.
-Print Assumptions C04_gv_variant_offset_underflow_refuted.
+(* ---- C04, GVariant half.  The two inputs that used to reach `attempt to subtract with overflow` in
+   read_last_offset_from_buffer (formerly C04_gv_struct_offset_underflow_refuted and
+   C04_gv_variant_offset_underflow_refuted; 130 strings over 257 zero bytes, directly and through a variant) are refused
+   with OutOfBounds since commit b5246470; the model of the code before that commit still panics on them. ---- *)
+Example C04_gv_struct_offset_underflow_repaired :
+  gde_struct_top LE 0 w_panic_sig w_panic_bytes [] = Err EBounds
+  /\ gde_before_fix gde_fuel (ginit_dst LE 0 w_panic_sig w_panic_bytes []) = Panic PArith.
+Proof. exact c04_struct_offset_repaired. Qed.
+Example C04_gv_variant_offset_underflow_repaired :
+  gde_value_top LE 0 w_panic_variant [] = Err EBounds
+  /\ gde_before_fix gde_fuel (ginit_dst LE 0 SVariant w_panic_variant []) = Panic PArith.
+Proof. exact c04_variant_offset_repaired. Qed.
 
 (* ---- C04, GVariant half.  Every slice, index, subtraction and unwrap of the decode path is an explicit Panic branch of
    the model.  For every byte order, offset, signature, descriptor table and input (below 2^64 bytes): the three entry
-   points (Value, Structure for a dynamic signature, typed) panic only (a) in the signature parser's recursion, and then
-   the input is longer than stack_limit = 50000 bytes, or (b) with the subtraction of read_last_offset_from_buffer in
-   StructureDeserializer, and then the input has at least 256 bytes. ---- *)
+   points (Value, Structure for a dynamic signature, typed) panic only in the signature parser's recursion (PStack: native
+   stack exhaustion in signature parsing, class sig_parse_stack), and then the input is longer than stack_limit = 50000
+   bytes.  (Before commit b5246470 there was a second class, the subtraction of read_last_offset_from_buffer in
+   StructureDeserializer: C05/DeProofs.v, gde_before_fix_panics.) ---- *)
 Theorem C04_gv_panic_classes : forall (e : endian) (pos : N) (g : sig) (b : bytes) (fds : list N) (p : panic),
   len b < 18446744073709551616 ->
   gde_value_top e pos b fds = Panic p \/ gde_struct_top e pos g b fds = Panic p \/ gde_typed_top e pos g b fds = Panic p ->
-  (p = PStack /\ stack_limit < len b) \/ (p = PArith /\ 256 <= len b).
+  p = PStack /\ stack_limit < len b.
 Proof. exact gde_tops_panics. Qed.
 Print Assumptions C04_gv_panic_classes.
 
-(* hence no panic at all on inputs shorter than 256 bytes (Known_C04gv b := 256 <= len b) *)
+(* hence no panic at all on inputs of at most 50000 bytes (Known_C04gv b := stack_limit < len b) *)
 Theorem C04_gv_nopanic_partial : forall (e : endian) (pos : N) (g : sig) (b : bytes) (fds : list N) (p : panic),
-  len b < 256 ->
+  len b <= stack_limit ->
   gde_value_top e pos b fds <> Panic p /\ gde_struct_top e pos g b fds <> Panic p /\ gde_typed_top e pos g b fds <> Panic p.
 Proof. exact gde_tops_small_nopanic. Qed.
 Print Assumptions C04_gv_nopanic_partial.
 
-(* and with the proposed repair (the framing offset of a tuple member read with a checked window, [read_last_checked])
-   the decoder does not panic on any input, for any recursion fuel, apart from the parser's native stack *)
-Theorem C04_gv_repaired_nopanic : forall (fuel : nat) (e : endian) (pos : N) (g : sig) (b : bytes) (fds : list N) (p : panic),
-  len b < 18446744073709551616 ->
-  gde_repaired_top fuel e pos g b fds = Panic p -> p = PStack /\ stack_limit < len b.
-Proof. exact gde_repaired_top_nopanic. Qed.
-Print Assumptions C04_gv_repaired_nopanic.
-
-(* the general form, for every decoder state with pos <= len < 2^64 and every recursion fuel *)
+(* the general form, for every decoder state with pos <= len < 2^64 and every recursion fuel (this is the former
+   C04_gv_repaired_nopanic, now a statement about the model of the code as it is) *)
 Theorem C04_gv_step : forall (fuel : nat) (st : dst) (p : panic),
   r_pos st <= r_len st /\ r_len st < 18446744073709551616 ->
-  gde fuel st = Panic p -> (p = PStack /\ stack_limit < r_len st) \/ (p = PArith /\ 256 <= r_len st).
+  gde fuel st = Panic p -> p = PStack /\ stack_limit < r_len st.
 Proof. exact gde_panics. Qed.
 Print Assumptions C04_gv_step.
+
+(* the code before commit b5246470, for the record: the second class was real, and confined to windows of >= 256 bytes *)
+Theorem C04_gv_before_fix_classes : forall (fuel : nat) (st : dst) (p : panic),
+  r_pos st <= r_len st /\ r_len st < 18446744073709551616 ->
+  gde_before_fix fuel st = Panic p -> (p = PStack /\ stack_limit < r_len st) \/ (p = PArith /\ 256 <= r_len st).
+Proof. exact gde_before_fix_panics. Qed.
+Print Assumptions C04_gv_before_fix_classes.
 
 (* ---- C07, GVariant half, encoder: for every well-formed value outside the known classes the serializer stops with a
    depth error exactly when the value exceeds 32 arrays (dicts count), 32 tuples or 64 containers in total (variants
